@@ -78,12 +78,16 @@ def sep_table(ra1, dec1, ra2, dec2):
             for i in range(ra1.size)]
 
 
+def arrays(c):
+    dt = c.get('dtype') or {}
+    ra1, dec1 = np.array(c['ra1'], dtype=dt.get('ra1', 'd')), np.array(c['dec1'], dtype=dt.get('dec1', 'd'))
+    if c.get('second') == 'same-object':        # the caller passes the very same arrays twice
+        return ra1, dec1, ra1, dec1
+    return (ra1, dec1, np.array(c['ra2'], dtype=dt.get('ra2', 'd')), np.array(c['dec2'], dtype=dt.get('dec2', 'd')))
+
+
 def one(c):
-    dt = c.get('dtype') or {}     # coordinate dtypes (default float64); whole-degree values for integer dtypes
-    ra1 = np.array(c['ra1'], dtype=dt.get('ra1', 'd'))
-    dec1 = np.array(c['dec1'], dtype=dt.get('dec1', 'd'))
-    ra2 = np.array(c['ra2'], dtype=dt.get('ra2', 'd'))
-    dec2 = np.array(c['dec2'], dtype=dt.get('dec2', 'd'))
+    ra1, dec1, ra2, dec2 = arrays(c)   # dtypes per case (default float64); `second: same-object` passes list 1 twice
     out = {'sep': sep_table(ra1, dec1, ra2, dec2)}
     kw = {}
     if c.get('chunksize') is not None:
@@ -114,12 +118,6 @@ def one(c):
                                 for i in range(obj.nDec) for j in range(obj.nRa[i]) if len(obj.chunkList[i][j]) > 0]
         out['rec'] = rec
     return out
-
-
-def arrays(c):
-    dt = c.get('dtype') or {}
-    return (np.array(c['ra1'], dtype=dt.get('ra1', 'd')), np.array(c['dec1'], dtype=dt.get('dec1', 'd')),
-            np.array(c['ra2'], dtype=dt.get('ra2', 'd')), np.array(c['dec2'], dtype=dt.get('dec2', 'd')))
 
 
 def plain_call(c, ra1, dec1, ra2, dec2):
